@@ -200,6 +200,21 @@ op('MPO_ctor')((lambda c, L, ck, r: {'qd': np.array(layout(L, ck)[0]), 'qD': [np
 op('MPO_identity')((lambda c, L, ck, r: {'qd': np.array(layout(L, ck)[0])}, lambda qd: MPO.identity(qd, 2, scale=2.0)))
 op('MPO_from_opgraph')((lambda c, L, ck, r: {'qd': np.array([0, 0]), 'graph': small_graph(), 'opmap': {k: v.copy() for k, v in OPMAP.items()}},
                         lambda qd, graph, opmap: MPO.from_opgraph(qd, graph, opmap, compute_nid_map=True)))
+
+
+def _merged_edge_graph():
+    # a two-site graph whose first edge carries two operators, the one with the smaller id with coefficient exactly 1
+    from props import c16
+    return c16.build_graph({'widths': [1], 'charges': [[0]], 'edges': [[(0, 0, 'a-b')], [(0, 0, 'b'), (0, 0, '2a')]]})
+
+
+for _ot in ('complex', 'float', 'int'):
+    def _opmap_operands(c, L, ck, r, ot=_ot):
+        conv = {'complex': lambda a: np.array(a, dtype=complex), 'float': lambda a: np.array(a, dtype=float),
+                'int': lambda a: np.rint(np.asarray(a).real).astype(np.int64)}[ot]
+        return {'qd': np.array([0, 0]), 'graph': _merged_edge_graph(), 'opmap': {k: conv(v) for k, v in OPMAP.items()}}
+    op('MPO_from_opgraph:opmap_' + _ot)((_opmap_operands, lambda qd, graph, opmap: MPO.from_opgraph(qd, graph, opmap, compute_nid_map=True)))
+
 op('qr')((lambda c, L, ck, r: {'A': palette.block_matrix(c.rng(0), np.array([0, 1, 0]), np.array([1, 0] if ck == 'u1' else [5, 7]), 'complex'),
                                'q0': np.array([0, 1, 0]), 'q1': np.array([1, 0] if ck == 'u1' else [5, 7])},
           lambda A, q0, q1: bond_ops.qr(A, q0, q1)))
